@@ -22,6 +22,8 @@ pub enum Op {
     /// let time pass without answering
     Withhold,
     Choke,
+    /// choke, but answers to the requests already received are still sent afterwards (in flight)
+    ChokeKeep,
     Unchoke,
     /// announce a piece not advertised so far
     Have(u16),
@@ -52,6 +54,7 @@ fn strategy(tier: Tier) -> BoxedStrategy<Case> {
                 2 => any::<u16>().prop_map(Op::Duplicate),
                 1 => Just(Op::Withhold),
                 1 => Just(Op::Choke),
+                1 => Just(Op::ChokeKeep),
                 2 => Just(Op::Unchoke),
                 1 => any::<u16>().prop_map(Op::Have),
             ];
@@ -202,7 +205,7 @@ impl Sim {
         w.send_frame(self.conn, &RFrame::Piece(p, b, data));
         self.answered.push((p, b, l));
         let same_epoch = self.observe(w, "after a block").await;
-        if check_progress && accepted && remaining > 0 && !self.peer_chokes_client && self.fails.is_empty() && w.fatal().is_none() && w.handler_alive(self.conn) {
+        if check_progress && accepted && remaining > 0 && self.fails.is_empty() && w.fatal().is_none() && w.handler_alive(self.conn) {
             self.classes.push("progress-rule-checked");
             if same_epoch != 1 {
                 self.fail(
@@ -314,6 +317,13 @@ pub fn check(c: &Case) -> Outcome {
                         sim.classes.push("choke");
                         sim.observe(w, "after choke").await;
                     }
+                    Op::ChokeKeep => {
+                        w.send_frame(conn, &RFrame::Choke);
+                        sim.peer_chokes_client = true;
+                        sim.classes.push("choke");
+                        sim.classes.push("choke-with-blocks-in-flight");
+                        sim.observe(w, "after choke").await;
+                    }
                     Op::Unchoke => {
                         w.send_frame(conn, &RFrame::Unchoke);
                         sim.peer_chokes_client = false;
@@ -355,14 +365,14 @@ pub fn check(c: &Case) -> Outcome {
 pub fn def() -> PropDef {
     PropDef {
         id: "C10",
-        rule: "one honest-content remote peer on the swarm runtime (real connection task + real manager): piece length from {1,5,16383,16384,16385,32768,32769,49153 (+65536,40000,20000 thorough)}, 1-4 pieces, generated shorter last piece, partial bitfield with later Haves; a history of up to 40 ops {answer k-th outstanding request, answer all (rotated), duplicate an answered block, withhold, choke, unchoke, have}. Oracle over the Request frames the client writes, grouped into assignment epochs (a repeated block or a different piece index is only allowed after the manager made a new assignment): every request is a block of the reference tiling of that piece's length, <= 16 KiB, never repeated within an epoch, for a piece the peer advertised; an accepted block while blocks remain unrequested is followed by exactly one further request (checked while the peer is not choking the client); a piece is Have with its file on disk exactly from the barrier at which every block of its tiling has been delivered within one assignment, never before. Non-trivial = piece length not a multiple of 16 KiB, or an out-of-order or duplicate answer; distinct by hash of the case.",
+        rule: "one honest-content remote peer on the swarm runtime (real connection task + real manager): piece length from {1,5,16383,16384,16385,32768,32769,49153 (+65536,40000,20000 thorough)}, 1-4 pieces, generated shorter last piece, partial bitfield with later Haves; a history of up to 40 ops {answer k-th outstanding request, answer all (rotated), duplicate an answered block, withhold, choke, unchoke, have}. Oracle over the Request frames the client writes, grouped into assignment epochs (a repeated block or a different piece index is only allowed after the manager made a new assignment): every request is a block of the reference tiling of that piece's length, <= 16 KiB, never repeated within an epoch, for a piece the peer advertised; an accepted block while blocks remain unrequested is followed by exactly one further request (also for blocks that were in flight when the peer choked the client: the statement has no choke exception); a piece is Have with its file on disk exactly from the barrier at which every block of its tiling has been delivered within one assignment, never before. Non-trivial = piece length not a multiple of 16 KiB, or an out-of-order or duplicate answer; distinct by hash of the case.",
         assumptions: &["the order in which blocks of a piece are requested is not asserted (the property speaks of coverage, not order)"],
         subs: vec![Sub {
             name: "tiling",
             cases: |t| t.pick(25_000, 300_000),
             run: |ctx| run_proptest(ctx, "tiling", strategy(ctx.tier), check),
             replay: |v| replay_case::<Case>(v, check),
-            min_class: &[("piece-length-not-multiple-of-16KiB", 0.3812), ("shorter-last-piece", 0.2603), ("epoch-completed", 0.487), ("out-of-order-answer", 0.1492), ("duplicate-or-stale-answer", 0.1), ("progress-rule-checked", 0.0982), ("choke", 0.1029)],
+            min_class: &[("piece-length-not-multiple-of-16KiB", 0.3812), ("shorter-last-piece", 0.2603), ("epoch-completed", 0.487), ("out-of-order-answer", 0.1492), ("duplicate-or-stale-answer", 0.1), ("progress-rule-checked", 0.0982), ("choke", 0.1029), ("choke-with-blocks-in-flight", 0.05)],
         }],
     }
 }
